@@ -347,6 +347,10 @@ pub struct ClientCase {
     /// the user is verified (false: userVerification discouraged, presence only)
     #[serde(default = "yes")]
     pub verified: bool,
+    /// in-memory store only: the stored credential's rp_id is the empty string (an imported legacy
+    /// entry; that store locates credentials by id alone)
+    #[serde(default)]
+    pub legacy_rp: bool,
     /// authenticator with hmac-secret capability
     pub capable: bool,
     /// 0 no extension, 1 prf eval, 2 credProps only
@@ -369,7 +373,10 @@ pub fn client_cases() -> Vec<ClientCase> {
                                 continue; // the in-memory store answers list-less lookups with nothing (C05)
                             }
                             for verified in [true, false] {
-                                v.push(ClientCase { start, secrets, capable, ext, listed, memory, verified });
+                                v.push(ClientCase { start, secrets, capable, ext, listed, memory, verified, legacy_rp: false });
+                                if memory && listed {
+                                    v.push(ClientCase { start, secrets, capable, ext, listed, memory, verified, legacy_rp: true });
+                                }
                             }
                         }
                     }
@@ -389,6 +396,10 @@ pub fn eval_client(c: &ClientCase) -> Vec<Finding> {
         1 => Some(true),
         _ => Some(false),
     } });
+    let mut item = item;
+    if c.legacy_rp {
+        item.rp_id = String::new();
+    }
     let log = Log::new();
     let cfg = super::common::AuthCfg { counter: true, id_len: None, hmac: if c.capable { 2 } else { 0 }, hmac_mc: false };
     let ext = match c.ext {
